@@ -7,6 +7,7 @@ import pandas as pd
 
 from skchange.anomaly_detectors.base import CollectiveAnomalyDetector
 from skchange.change_detectors.base import ChangeDetector
+from skchange.utils.validation.data import check_data
 
 
 class StatThresholdAnomaliser(CollectiveAnomalyDetector):
@@ -81,6 +82,7 @@ class StatThresholdAnomaliser(CollectiveAnomalyDetector):
         y : `pd.Series` - annotations for sequence `X`
             exact format depends on annotation type
         """
+        X = check_data(X, min_length=1)
         # This is the required output format for the rest of the code to work.
         segments = self.change_detector_.transform(X)["labels"]
         df = pd.concat([X, segments], axis=1)
